@@ -6,6 +6,8 @@
 //   double-bits      : every exponent (2048) x mantissa {0,1,2^51,2^52-1} x sign, plus the values adjacent to
 //                      k, k+-1/2 for k in a boundary set up to +-2^31: same functions in double.
 //   int-div-grid     : divs/mods/divp/modp on the boundary-heavy int grid against int64 models.
+//   int-div-ub       : the same grid + INT_MIN through an overflow-instrumented copy (c17_ub.cpp): no undefined
+//                      signed overflow in the evaluation wherever no negation overflows.
 // Other TUs: c17_scalar.cpp, c17_roots.cpp, c17_color.cpp.
 //
 // Oracles are written from the definitions (integer part / fraction flag of the binary expansion; "next bit
@@ -181,6 +183,26 @@ inline void eucl_div (int64_t x, int64_t y, int64_t& q, int64_t& r)
     q = (x - r) / y;          // exact
 }
 
+// the boundary-heavy int alphabet of the division stages (INT_MIN itself is added by the stage that can use it)
+std::vector<int> int_alphabet ()
+{
+    std::vector<int> A;
+    for (int k = 1; k <= 4; ++k) A.push_back (INT_MIN + k);
+    for (int k : {-65537, -65536, -65535}) A.push_back (k);
+    for (int k = -7; k <= 7; ++k) A.push_back (k);
+    if (R ().thorough ())
+    {
+        for (int k = 8; k <= 40; ++k) { A.push_back (k); A.push_back (-k); }
+        for (int k : {255, 256, 257, 32767, 32768, 46340, 46341, 1 << 30, (1 << 30) + 1, INT_MAX / 2, INT_MAX / 3, 715827882, 715827883}) { A.push_back (k); A.push_back (-k); }
+        for (int k = 5; k <= 40; ++k) { A.push_back (INT_MIN + k); A.push_back (INT_MAX - k + 1); }
+    }
+    for (int k : {65535, 65536, 65537}) A.push_back (k);
+    for (int k = 3; k >= 0; --k) A.push_back (INT_MAX - k);
+    std::sort (A.begin (), A.end ());
+    A.erase (std::unique (A.begin (), A.end ()), A.end ());
+    return A;
+}
+
 } // namespace
 
 int main (int argc, char** argv)
@@ -188,7 +210,7 @@ int main (int argc, char** argv)
     R ().property = "C17";
     R ().parse (argc, argv);
     R ().assume ("x86-64 SSE2 arithmetic: float/double operations are IEEE-754 binary32/binary64, no FMA contraction (-O2, baseline ISA)");
-    R ().assume ("NaN arguments of the int-valued functions and INT_MIN operands are outside the stated domain and are not enumerated");
+    R ().assume ("NaN arguments of the int-valued functions are outside the stated domain and are not enumerated; INT_MIN operands of the integer divisions are enumerated in stage int-div-ub only, where a call is inside the premise iff no unary minus overflowed in it");
 
     // ---- model self-check: the integer model agrees with long-double floorl/ceill/truncl on a boundary set
     if (R ().stage ("oracle-selfcheck"))
@@ -279,20 +301,7 @@ int main (int argc, char** argv)
     // ---- int grid
     if (R ().stage ("int-div-grid"))
     {
-        std::vector<int> A;
-        for (int k = 1; k <= 4; ++k) A.push_back (INT_MIN + k);
-        for (int k : {-65537, -65536, -65535}) A.push_back (k);
-        for (int k = -7; k <= 7; ++k) A.push_back (k);
-        if (R ().thorough ())
-        {
-            for (int k = 8; k <= 40; ++k) { A.push_back (k); A.push_back (-k); }
-            for (int k : {255, 256, 257, 32767, 32768, 46340, 46341, 1 << 30, (1 << 30) + 1, INT_MAX / 2, INT_MAX / 3, 715827882, 715827883}) { A.push_back (k); A.push_back (-k); }
-            for (int k = 5; k <= 40; ++k) { A.push_back (INT_MIN + k); A.push_back (INT_MAX - k + 1); }
-        }
-        for (int k : {65535, 65536, 65537}) A.push_back (k);
-        for (int k = 3; k >= 0; --k) A.push_back (INT_MAX - k);
-        std::sort (A.begin (), A.end ());
-        A.erase (std::unique (A.begin (), A.end ()), A.end ());
+        std::vector<int> A = int_alphabet ();
         long long pairs = 0, trans = 0, sg[4] = {0, 0, 0, 0}, exact = 0, ovf = 0;
         for (int xi : A)
             for (int yi : A)
@@ -332,6 +341,92 @@ int main (int argc, char** argv)
         R ().cls ("int.rounding-offset-exceeds-int", ovf);
         R ().sample ("divp(-7,2) = " + fmt (IM::divp (-7, 2)) + ", modp(-7,2) = " + fmt (IM::modp (-7, 2)) + ", divs(-7,2) = " + fmt (IM::divs (-7, 2)) + ", mods(-7,2) = " + fmt (IM::mods (-7, 2)));
         R ().stage_done (std::to_string (A.size ()) + "^2 pairs minus y=0 on {INT_MIN+1..+4, -2^16+-1, -7..7, 2^16+-1, INT_MAX-3..INT_MAX}" + std::string (R ().thorough () ? " + 162 further boundary values" : "") + " x {divs, mods, divp, modp} vs int64 truncating / Euclidean division");
+    }
+
+
+    // ---- int grid again, through the instrumented copy of the four functions (c17_ub.cpp): the evaluation itself
+    // must be free of undefined behaviour wherever the statement's premise holds.
+    //   premise ("all ints where no intermediate negation overflows"): decided per call by the negate call-back of
+    //   the instrumentation — a call in which a unary minus overflowed is outside the statement and only counted;
+    //   x = INT_MIN, y = -1 for divp/modp is outside as well (the quotient 2^31 is not an int: no function can satisfy
+    //   x = y*divp + modp there).
+    //   demanded: no other signed operation (+, binary -, *, /, %) leaves the int range. A result that happens to be
+    //   right after two's-complement wrap-around is still undefined behaviour (constant evaluation rejects it, -ftrapv
+    //   aborts, the optimiser may assume it away).
+    // Alphabet: the int-div-grid alphabet plus INT_MIN itself (for divp/modp no negation touches x, so x = INT_MIN is
+    // inside the premise; their values there are compared with the Euclidean model as well).
+    if (R ().stage ("int-div-ub"))
+    {
+        std::vector<int> A = int_alphabet ();
+        A.push_back (INT_MIN);
+        std::sort (A.begin (), A.end ());
+        // instrumentation self-check: every kind of call-back is live, and a clean operation raises none
+        {
+            volatile int big = INT_MAX, mn = INT_MIN, one = 1, m1 = -1;
+            unsigned     seen = 0, clean = 0;
+            (void) c17ub::take ();
+            (void) c17ub::probe (0, big, one); seen |= c17ub::take ();
+            (void) c17ub::probe (1, mn, one); seen |= c17ub::take ();
+            (void) c17ub::probe (2, big, big); seen |= c17ub::take ();
+            (void) c17ub::probe (3, mn, one); seen |= c17ub::take ();
+            for (int k = 0; k < 5; ++k) { (void) c17ub::probe (k, 7, 3); clean |= c17ub::take (); }
+            (void) m1; // (INT_MIN / -1 cannot be probed live: the call-back returns and the division instruction traps)
+            if (seen != 15u || clean != 0) R ().fail ("oracle.selfcheck.overflow-instrumentation", "one overflowing and one clean operation of each kind", "flags 15 / 0", fmt (seen) + " / " + fmt (clean));
+            R ().cls ("int.ub.instrumentation-kinds-live", __builtin_popcount (seen));
+        }
+        const char* FN[4] = {"divs", "mods", "divp", "modp"};
+        long long   calls = 0, in_premise = 0, negation = 0, unrep = 0, xmin_in = 0, prod_out = 0, pairs = 0;
+        for (int xi : A)
+            for (int yi : A)
+            {
+                if (yi == 0) continue;
+                volatile int xv = xi, yv = yi;
+                int          x = xv, y = yv;
+                ++pairs;
+                int64_t eq = 0, er = 0, tq = 0, tr = 0;
+                trunc_div (x, y, tq, tr);
+                eucl_div (x, y, eq, er);
+                for (int w = 0; w < 4; ++w)
+                {
+                    if (x == INT_MIN && y == -1) { ++unrep; continue; } // quotient 2^31 (divs: also a negation of INT_MIN)
+                    (void) c17ub::take ();
+                    int      got = c17ub::call (w, x, y);
+                    unsigned fl  = c17ub::take ();
+                    ++calls;
+                    if (fl & c17ub::NEG) { ++negation; continue; } // outside the premise
+                    ++in_premise;
+                    std::string in = std::string (FN[w]) + " " + fmt (x) + " " + fmt (y);
+                    // input class of the one known way to get there: modp forms y*divp(x,y) = x - modp, which lies below
+                    // INT_MIN when x is closer to INT_MIN than the remainder
+                    bool product_unrepresentable = w == 3 && !fits ((int64_t) y * eq);
+                    if (product_unrepresentable) ++prod_out;
+                    if (fl)
+                    {
+                        std::string kinds;
+                        if (fl & c17ub::ADD) kinds += "+add";
+                        if (fl & c17ub::SUB) kinds += "+sub";
+                        if (fl & c17ub::MUL) kinds += "+mul";
+                        if (fl & c17ub::DIVREM) kinds += "+divrem";
+                        std::string site = product_unrepresentable && (fl & c17ub::MUL) ? std::string ("modp.signed-overflow.y*divp-below-INT_MIN")
+                                                                                        : std::string (FN[w]) + ".signed-overflow." + kinds.substr (1);
+                        R ().fail (site, in, "no signed overflow in the evaluation (no negation overflows for this input)", "overflow in: " + kinds.substr (1) + "; returned " + fmt (got));
+                    }
+                    // values for the new operand INT_MIN (everything else is compared in int-div-grid)
+                    if (x == INT_MIN || y == INT_MIN)
+                    {
+                        if (x == INT_MIN && w >= 2) ++xmin_in;
+                        int64_t want = w == 0 ? tq : (w == 1 ? tr : (w == 2 ? eq : er));
+                        if (got != want) R ().fail (std::string (FN[w]) + ".INT_MIN-operand", in, fmt ((long long) want), fmt (got));
+                    }
+                }
+            }
+        R ().add ("states", pairs); R ().add ("evaluations", calls); R ().add ("transitions", calls);
+        R ().cls ("int.ub.calls-inside-premise", in_premise);
+        R ().cls ("int.ub.calls-outside-premise(negation-overflows)", negation);
+        R ().cls ("int.ub.divp-modp.x=INT_MIN-inside-premise", xmin_in);
+        R ().cls ("int.ub.modp.y*divp-not-representable", prod_out);
+        R ().add ("int.ub.quotient_2^31_not_representable_skipped", unrep);
+        R ().stage_done (std::to_string (A.size ()) + "^2 pairs minus y=0 (int-div-grid alphabet + INT_MIN) x {divs, mods, divp, modp} through the overflow-instrumented copy: no signed +,-,*,/ overflow where no negation overflows; values at INT_MIN operands");
     }
 
     c17_scalar_stages ();
